@@ -1,6 +1,7 @@
 import LyModel.Valid.SpecDefaults
 import LyModel.Valid.Hist
 import LyModel.Valid.Ops
+import LyModel.Valid.ValApply
 /-! driver ops of component `valid` (C02, C07): see harness/api_val.c and harness/api_norm.c for the protocol -/
 namespace LyModel.Valid.Drv
 open LyModel LyModel.Tree
@@ -37,6 +38,16 @@ def handle (op : String) (args : List String) : String :=
     withX dsl xdsl fun X =>
       match opts.toNat?, steps.mapM (parseStep X.base) with
       | some on, some sts => "ok" ++ String.join ((runHist X (VOpts.ofNat on) sts 0 0 []).map (" " ++ ·))
+      | _, _ => "err BadStep"
+  | "histlaw", dsl :: xdsl :: opts :: fx :: steps =>
+    -- the laws of C07 along a history, as harness/api_norm.c `histlaw` evaluates them on libyang; `fx` = `fx=120,126` the repairs of
+    -- lyd_diff_apply_all present in the tree under test; plus `sh<i>` = the hypotheses of `valdiff_exact_partial` on that input
+    withX dsl xdsl fun X =>
+      match opts.toNat?, steps.mapM (parseStep X.base) with
+      | some on, some sts =>
+        let l := ((fx.drop 3).toString.splitOn ",")
+        let f : Diff.Fixes := { f120 := l.contains "120", f126 := l.contains "126", f128 := l.contains "128" }
+        "ok" ++ String.join ((runLaw X (VOpts.ofNat on) f sts 0 0 []).map (" " ++ ·))
       | _, _ => "err BadStep"
   | "rfcdefaults", [dsl, xdsl, opts, dump] =>
     -- the explicit part of the tree completed with the default nodes the RFCs put in use (model only); flags of the input kept
